@@ -269,12 +269,16 @@ Definition spec_C17x (sc : escen) (ob : eobs) : bool := spec_C17 sc ob && spec_C
 
 (* the predicate the C05 check applies: the proved predicate (Spec/SpecEngine.v) together with
    "a failed run reports a framework error only where the scenario has a cause for one" (a flow
-   without a start node, a reference to a node that does not exist).  This extra clause is not
-   proved of the model in general; every case file evaluates it on the model's own observation
-   as well (a false value there is reported as a defect of the check, not of the code). *)
+   without a start node, a reference to a node that does not exist, user code that itself
+   returns such an error).  Proved of every model run in Proofs/FwCauseProofs.v. *)
 Definition known_node (sc : escen) (n : nid) : bool :=
   match table_of (es_nodes sc) n with Some _ => true | None => false end.
-Definition fw_possible (sc : escen) : bool :=
+(* the scripted user code itself returns a framework-class error somewhere *)
+Definition resp_no_fw (r : resp * bool) : bool :=
+  match fst r with RErr e => negb (eclass_eqb (class_of e) KFw) | _ => true end.
+Definition script_no_fw (sc : script) : bool :=
+  forallb (fun e => forallb resp_no_fw (se_rs e) && resp_no_fw (se_dflt e)) sc.
+Definition fw_in_table (sc : escen) : bool :=
   negb (known_node sc (es_root sc)) ||
   existsb (fun nd => match snd nd with
                      | NFlow None _ => true
@@ -283,6 +287,7 @@ Definition fw_possible (sc : escen) : bool :=
                          existsb (fun c => match snd c with Some t => negb (known_node sc t) | None => false end) conns
                      | _ => false
                      end) (es_nodes sc).
+Definition fw_possible (sc : escen) : bool := fw_in_table sc || negb (script_no_fw (es_script sc)).
 Definition fw_clause (sc : escen) (ob : eobs) : bool :=
   forallb (fun r : erun => let '(_, oc, _) := r in
              match snd oc with
